@@ -111,6 +111,30 @@ type c12Op struct {
 	SlowFirst bool `json:"slow_first,omitempty"`
 	// configuration: OLLAMA_NOPRUNE=1 (no start-up prune; create/pull keep replaced layers)
 	NoPrune bool `json:"noprune,omitempty"`
+	// ONE transient registry fault on the first body request (offset 0) for blob FaultDigest, then honest:
+	//   shortpage: a short 503 error page instead of the body (non-resumable chunk failure after a few bytes)
+	//   damaged:   the whole body with one byte flipped (a bad CDN node)
+	//   cut:       the body breaks off after FaultAt bytes with an unexpected EOF (resumable)
+	Fault       string `json:"fault,omitempty"`
+	FaultDigest string `json:"fault_digest,omitempty"`
+	FaultAt     int    `json:"fault_at,omitempty"`
+}
+
+type c12CutReader struct {
+	r io.Reader
+	n int
+}
+
+func (r *c12CutReader) Read(p []byte) (int, error) {
+	if r.n <= 0 {
+		return 0, io.ErrUnexpectedEOF
+	}
+	if len(p) > r.n {
+		p = p[:r.n]
+	}
+	n, err := r.r.Read(p)
+	r.n -= n
+	return n, err
 }
 
 type c12DelayReader struct {
@@ -146,7 +170,8 @@ func (r *c12PieceReader) Read(p []byte) (int, error) {
 
 // in-memory honest registry
 type c12RT struct {
-	op *c12Op
+	op        *c12Op
+	faultDone bool
 }
 
 func (rt *c12RT) RoundTrip(req *http.Request) (*http.Response, error) {
@@ -195,6 +220,21 @@ func (rt *c12RT) RoundTrip(req *http.Request) (*http.Response, error) {
 		}
 		if lo > hi+1 || hi >= len(data) {
 			return mk(416, []byte("range"), nil), nil
+		}
+		if rt.op.Fault != "" && !rt.faultDone && d == rt.op.FaultDigest && lo == 0 {
+			rt.faultDone = true
+			switch rt.op.Fault {
+			case "shortpage":
+				return mk(503, []byte("<html>503 Service Unavailable</html>"), nil), nil
+			case "damaged":
+				bad := append([]byte{}, data[lo:hi+1]...)
+				bad[len(bad)/2] ^= 0x20
+				return mk(206, bad, nil), nil
+			case "cut":
+				resp := mk(206, data[lo:hi+1], nil)
+				resp.Body = io.NopCloser(&c12CutReader{r: resp.Body, n: rt.op.FaultAt})
+				return resp, nil
+			}
 		}
 		var hdr map[string]string
 		if rt.op.SlowFirst && lo == 0 && len(data) > 100_000_000 {
@@ -1647,6 +1687,7 @@ func TestVerifC12(t *testing.T) {
 			Involved     []string
 			NoL1         bool // multi-part pull: outside the Lean model; L2 monitors only, sampled body writes
 			Reduced      bool // kill points: non-body store syscalls + the middle of each run of body writes only
+			ExpectFail   bool // registry fault scripts: the uninterrupted operation is expected to FAIL (damaged body)
 			Live         bool // restart = the REAL Serve in a traced child, the operation repeated through its HTTP API
 			MaxPoints    int  // sample the kill points evenly down to this many (0 = all)
 		}
@@ -1709,6 +1750,27 @@ func TestVerifC12(t *testing.T) {
 			scenario{Store: "S1", Label: "create-safetensors", Op: &opCreateST, Involved: inv("st"), NoL1: true, MaxPoints: 40},
 			scenario{Store: "S1", Label: "pull-new-live", Op: &opPullNew, Involved: inv("f"), NoL1: true, Live: true},
 		)
+		// registry FAULT scripts on the crashed pull (one transient fault, then honest; the repeated pull sees an honest
+		// registry) x kill points x start-up configurations (NOPRUNE, corrupt-manifest gate = S2, default)
+		fault := func(kind string, noprune bool) *c12Op {
+			op := opPullNew
+			op.Fault, op.FaultDigest, op.FaultAt, op.NoPrune = kind, c12Digest(pl3), len(pl3)/3, noprune
+			return &op
+		}
+		scen = append(scen,
+			scenario{Store: "S1", Label: "pull-fault-shortpage-noprune", Op: fault("shortpage", true), Involved: inv("f"), NoL1: true},
+			scenario{Store: "S1", Label: "pull-fault-cut-noprune", Op: fault("cut", true), Involved: inv("f"), NoL1: true},
+			scenario{Store: "S1", Label: "pull-fault-damaged-noprune", Op: fault("damaged", true), Involved: inv("f"), NoL1: true, ExpectFail: true},
+			scenario{Store: "S2", Label: "pull-fault-damaged", Op: fault("damaged", false), Involved: inv("f"), NoL1: true, ExpectFail: true},
+			scenario{Store: "S1", Label: "pull-fault-damaged", Op: fault("damaged", false), Involved: inv("f"), NoL1: true, ExpectFail: true},
+		)
+		if thorough {
+			scen = append(scen,
+				scenario{Store: "S2", Label: "pull-fault-shortpage", Op: fault("shortpage", false), Involved: inv("f"), NoL1: true},
+				scenario{Store: "S1", Label: "pull-fault-shortpage", Op: fault("shortpage", false), Involved: inv("f"), NoL1: true},
+				scenario{Store: "S2", Label: "pull-fault-cut", Op: fault("cut", false), Involved: inv("f"), NoL1: true},
+			)
+		}
 		if opPullBig != nil {
 			scen = append(scen, scenario{Store: "S1", Label: "pull-multipart-noprune", Op: opPullBig, Involved: inv("g"), NoL1: true})
 			// the same multi-part pull in the DEFAULT configuration: the start-up prune must clear the part bookkeeping
@@ -1786,6 +1848,26 @@ func TestVerifC12(t *testing.T) {
 			}
 			out.Count("op_" + sc.Op.Kind)
 			fullReadable := c12ReadableListing(full)
+			rerunOp := sc.Op
+			if sc.Op.Fault != "" {
+				out.Count("fault_" + sc.Op.Fault)
+				// the transient fault is over when the operation is repeated; the reference is an honest uninterrupted run
+				h := *sc.Op
+				h.Fault = ""
+				rerunOp = &h
+				ref := filepath.Join(work, fmt.Sprintf("r%d-%s-%s-honest", round, sc.Store, sc.Label))
+				c12CopyTree(base, ref)
+				t.Setenv("OLLAMA_MODELS", ref)
+				if h.NoPrune {
+					os.Setenv("OLLAMA_NOPRUNE", "1")
+				}
+				if r := c12RunOp(t, &h); r != "ok" {
+					t.Fatalf("%s: honest reference run failed: %s", tag, r)
+				}
+				os.Unsetenv("OLLAMA_NOPRUNE")
+				fullReadable = c12ReadableListing(ref)
+				os.RemoveAll(ref)
+			}
 			// contract behind the model's `put`: a manifest / part record is written by ONE write and every
 			// proper prefix of its text is rejected by the real decoder (or, minus the final newline, decodes
 			// to the same value), so a cut write is as unreadable as the empty file
@@ -1821,8 +1903,15 @@ func TestVerifC12(t *testing.T) {
 				}
 			}
 			t.Logf("== %s: result=%s store syscalls=%d effects=%d", tag, res, entered, len(effs))
-			if res != "ok" {
-				out.L2("uninterrupted-op-failed", tag+" 0 -", res)
+			if (res != "ok") != sc.ExpectFail {
+				out.L2("uninterrupted-op-failed", tag+" 0 -", fmt.Sprintf("expected failure=%v, result=%s", sc.ExpectFail, res))
+			}
+			if sc.ExpectFail {
+				// a failed operation must not leave anything unverified behind either
+				rd, _ := c12Walk(full)
+				for _, b := range c12CheckIntact(full, rd) {
+					out.L2("dangling-layer", tag+" 0 -", "after the failed uninterrupted run: "+b)
+				}
 			}
 			// number of model effects completed before store syscall N is entered
 			effBefore := make([]int, entered+2)
@@ -1934,7 +2023,7 @@ func TestVerifC12(t *testing.T) {
 					out.Count("l1_crash_lines")
 				}
 
-				if sc.Op.Kind == "pull" {
+				if sc.Op.Kind == "pull" && sc.Op.Fault == "" { // the hypothesis is about an HONEST registry
 					bad, nrec := c12CheckDebris(dir, sc.Op)
 					out.Add("debris_records_checked", nrec)
 					for _, b := range bad {
@@ -2032,7 +2121,7 @@ func TestVerifC12(t *testing.T) {
 					// the model's restart on the crashed state (prune skipped: identity) is covered by `rerun`
 				}
 				// ---- repeat the operation
-				res2 := c12RunOp(t, sc.Op)
+				res2 := c12RunOp(t, rerunOp)
 				okish := res2 == "ok" || (sc.Op.Kind == "delete" && res2 == "err:notfound")
 				if !okish {
 					out.L2("rerun-failed", caseLine, fmt.Sprintf("window=%s pruned=%v torn=%v result=%s", window(n), pruned, torn, res2))
